@@ -357,6 +357,52 @@ pub fn slice_c_run<S: Sch>(rec: &mut Rec) {
     }
 }
 
+/// Univariate Ligero: polynomials of different sizes (different column counts; equal column counts
+/// with different row counts) opened by ONE open / check call and by a one-label batch, every ordered pair.
+pub fn lig_one_call(rec: &mut Rec) {
+    use ark_poly::DenseUVPolynomial;
+    type S = SLig;
+    let cfg = KeyCfg::uni(1 << 20, 1 << 20, 1, None);
+    let degs = [3usize, 40, 199, 250, 399, 500, 1000];
+    let keys = match build_keys::<S>(&cfg, rec.seed) {
+        Ok(k) => k,
+        Err(_) => return,
+    };
+    let r = rho_stream::<Fr381>(rec.seed, 9, 1001);
+    let pts = <S as Sch>::points(&cfg, rec.seed);
+    for i in 0..degs.len() {
+        for j in 0..degs.len() {
+            for (zn, z) in pts.iter().take(2) {
+                let id = format!("LIG/one-call/degrees=[{},{}]/z={}", degs[i], degs[j], zn);
+                if !rec.take(&id) {
+                    continue;
+                }
+                rec.dim("scheme", "LIG");
+                rec.op(3);
+                let polys: Vec<LP<S>> = [degs[i], degs[j]].iter().enumerate().map(|(n, d)| lp::<S>(&format!("m{}", n), UP::<Fr381>::from_coefficients_slice(&r[..=*d]), None, None)).collect();
+                let c = match commit_set::<S>(&keys, polys, rec.seed, 0) {
+                    Ok(c) => c,
+                    Err(o) => {
+                        fail(rec, "LIG", "commit", "several-sizes", &id, format!("in-domain commit failed: {}", o.short()));
+                        continue;
+                    }
+                };
+                match open_single::<S>(&keys, &c, &[0, 1], z, 0, rec.seed, 0) {
+                    Ok(s1) => {
+                        let cr: Vec<&LCm<S>> = c.comms.iter().collect();
+                        let d = check_single::<S>(&keys, &cr, z, &s1.values, &s1.proof, 0, rec.seed, 0);
+                        rec.class(d.class());
+                        if !d.accepted() {
+                            fail(rec, "LIG", "check", "several-sizes-in-one-call", &id, format!("honest proof not accepted: {}", d.short()));
+                        }
+                    }
+                    Err(o) => fail(rec, "LIG", "open", "several-sizes-in-one-call", &id, format!("in-domain open failed: {}", o.short())),
+                }
+            }
+        }
+    }
+}
+
 pub fn run(rec: &mut Rec) {
     let dmax = if rec.thorough() { 6 } else { 3 };
     crate::for_each_scheme!(S, {
@@ -371,5 +417,6 @@ pub fn run(rec: &mut Rec) {
     slice_d_run::<SMar>(rec);
     slice_d_run::<SSon>(rec);
     slice_d_run::<SIpa>(rec);
+    lig_one_call(rec);
     crate::special::c01_special(rec);
 }
